@@ -191,7 +191,9 @@ def ref_strip(R, ignore):
 
 
 PIN_FAMILIES = [("se", "reset", "d", "q", "qn"), ("d", "rd", "d0", "d01", "q"), ("en", "clk_en", "clk", "q", "q_n"),
-                ("a", "a1", "ba", "y", "y_b"), ("i", "si", "in", "o", "so")]
+                ("a", "a1", "ba", "y", "y_b"), ("i", "si", "in", "o", "so"),
+                # with instances `u` and `u_n1` both in the name pool: u.n1_q and u_n1.q both want the io name u_n1_q
+                ("n1_q", "q", "n1_d", "d", "n1_y"), ("q", "n1_q", "d", "n1_d", "y")]
 
 
 def gen_child(rng, idx, allow_nested):
@@ -500,6 +502,17 @@ def run(case, ctx):
             # whatever state it left (legality of that state is C07's business, not C06's)
             ctx.probe("rejected_call" if exc is not None else "invalid_call_accepted")
             if k == "strip_blackboxes":
+                if exc is None:
+                    # two pins want the same io name: the library cannot deliver what the statement asks for, but it must
+                    # not hand back a circuit in which pins were silently merged
+                    rs0 = ref.snapshot(res)
+                    n_pins_kept = sum(1 for n, v in R["nodes"].items() if v[0] in ("bb_input", "bb_output")
+                                      and n.split(".")[-1] not in (op[1] if isinstance(op[1], list) else [op[1]] if op[1] else []))
+                    n_other = sum(1 for v in R["nodes"].values() if v[0] not in ("bb_input", "bb_output"))
+                    if len(rs0["nodes"]) != n_other + n_pins_kept or ref.wiring_violations(rs0, undriven=False):
+                        ctx.violate("C06.strip_merged", f"step {step} {op}: pins with colliding io names were merged silently: "
+                                    f"{len(rs0['nodes'])} nodes for {n_other} nodes + {n_pins_kept} pins; "
+                                    f"{ref.wiring_violations(rs0, undriven=False)[:2]}", dict(sig, merged=True))
                 return
             R = ref.snapshot(c)
             R = {"name": R["name"], "nodes": R["nodes"], "bbs": R["bbs"]}
